@@ -504,7 +504,10 @@ func evalCase(kind string, args []string) (res string) {
 		}
 		c := rune(int32(n))
 		ps := [][]rune{{0x61, c}, {c, 0x61}, {c, 0x308}, {0x1F468, 0x200D, c}, {0x1F468, c, 0x200D, 0x1F469},
-			{0x1F1E9, c}, {0x1100, c}, {c, 0x1161}, {c, 0x11A8}}
+			{0x1F1E9, c}, {0x1100, c}, {c, 0x1161}, {c, 0x11A8},
+			// four more: the nine above cannot tell CR/LF/Control, ZWJ/SpacingMark and V/LV apart
+			// (theorem C02_probes_distinguish, found while proving it)
+			{0x0D, c}, {c, 0x0A}, {0x1F468, c, 0x1F469}, {0x1161, c}}
 		outs := make([]string, len(ps))
 		for i, p := range ps {
 			outs[i] = encInts(vh.GemSplit(p))
